@@ -9,6 +9,8 @@ mkdir -p .build evidence replays
 .build/target/debug/vtranslate /repo/src lean/Svgdx/Gen
 (cd lean && lake build Svgdx svgdx_model)
 (cd tools/vharness && cargo build --offline)
+# the svgdx and svgdx-server binaries of /repo's working tree (front-end properties C01 C06 C07)
+(cd /repo && CARGO_TARGET_DIR=/verif/.build/target-repo cargo build --offline --bins)
 # warm the proof modules (and Mathlib's first load) so that per-property checks are incremental
 (cd lean && for f in Svgdx/Props/C*.lean; do m=$(echo "$f" | sed 's/\.lean$//; s|/|.|g'); lake build "$m" >/dev/null 2>&1 || true; done)
 echo setup done
